@@ -229,6 +229,23 @@ theorem C09_cache_coherent {α β : Type} (fn : α → Except Err β) (inputs : 
   | none => rfl
   | some r => simp only [Option.bind]; rw [hco kv r hkv hl]
 
+/-- WARM CACHE: once a sequential call over these inputs (distinct keys) has returned, the directory it leaves behind
+    answers ANY later call over the same inputs — sequential or pool mode under any schedule, with ANY function, which
+    is never called — with exactly the first call's results, in the same order under the same keys -/
+theorem C09_cache_second_call_loads {α β : Type} (fn fn' : α → Except Err β) (inputs : List (Label × α)) (st : Store β)
+    (res : List (Label × β)) (st' : Option (Store β)) (hd : distinctKeys (inputs.map (·.1)) = true)
+    (h : parallelise fn inputs (some st) false {} = (.ok res, st'))
+    (par : Bool) (s : Sched) (hn : 0 < s.n) (hT : s.timedOut = []) :
+    (parallelise fn' inputs st' par s).1 = .ok res := by
+  have hseq : seqMap fn (some st) inputs = (.ok res, st') := by
+    unfold parallelise at h
+    simpa [hd] using h
+  have hw := warm_cache_loads fn fn' inputs st res st' hd hseq
+  obtain ⟨h1, h2⟩ := C09_parallelise_any_schedule fn' inputs st' s hn hT
+  cases par with
+  | true => rw [h2 (Or.inr hd)]; exact hw
+  | false => rw [← h1, h2 (Or.inr hd)]; exact hw
+
 /-- … and the hypothesis is needed: the directory is keyed by the ROW LABEL alone, so a directory filled by a
     different scan (other values under the same labels — the default labels are 0, 1, 2, … for every table) is
     served as this scan's result, and `fn` is never called (it may even be a function that always raises). -/
